@@ -137,4 +137,15 @@ CHECKS["C11"] = {
             "include stateful algos and, with fixed seeds, SelectRandomly / WeighRandomly / WeighERC / WeighInvVol / WeighMeanVar / TargetVol.",
     "note": COMMON_NOTE + " Hash-seed dependence, aliasing and process-wide state are runtime behaviours that a pure Gallina model cannot exhibit; for them the sessions are a "
             "differential test (sampled), not a proof. The theorems carry the logical part: purity / run-once of the specification the implementation is compared with."}
+CHECKS["C18"] = {
+    "text": "Model: the reports as Gallina functions of the final tree's histories (Reports.v: members, weights, security weights, positions / outlays aggregated by "
+            "ticker, Herfindahl index, turnover, transaction list with spread-inclusive prices, Result price). Theorems (real numbers, every tree / row): a member's "
+            "weight times the root's value (notional) is the member's value; aggregation by ticker keeps every row's total; on every row whose recorded balance sheet "
+            "holds, security weights plus all strategies' cash fractions sum to one; the running total of the trade series is the position on every date and the list "
+            "contains exactly the non-zero trades. Correspondence: every report of generated runs (flat / nested with shared tickers / fixed income / no trades / shorts / "
+            "spreads) bit for bit against the extracted report functions; independent recomputation from raw histories incl. quantity x price x multiplier = capital "
+            "spent; round trip of the transaction list through ReplayTransactions (positions and values reproduced).",
+    "note": COMMON_NOTE + " Turnover / HHI / Result.prices are tied by correspondence to definitional model functions (their 'stated formula' is the definition); the "
+            "ReplayTransactions round trip is a relational test on implementation and model, not a theorem. Known finding K16 (fee on spread-inclusive price in replays); four "
+            "report defects were repaired (no-securities transactions / turnover, bid-offer per ticker, multiplier)."}
 NOT_APPLICABLE = {}
